@@ -130,6 +130,16 @@ CLAIMED = {
         "DESIGN.md §4 C16",
         "exploration",
     ),
+    "C10": (
+        "Hypothesis-generated arguments x argument form x expression context per rewritten construct vs reference implementations of documented semantics",
+        "18 constructs (REGEXP_REPLACE/SUBSTR, SPLIT, TRIM family, TO_DATE, TO_TIMESTAMP[_NTZ], TO_DECIMAL family, DATEADD, DATEDIFF, SHA2 "
+        "family, EQUAL_NULL, casts, RANDOM, SAMPLE, IDENTIFIER, VALUES columnN, ARRAY_AGG, alias in JOIN) are exercised with edge-biased "
+        "arguments as literals and as columns, embedded in select list / WHERE / nested / CTE / sub-query / VIEW / INSERT..SELECT, and "
+        "compared (value and Python type) with Python reference implementations self-tested on documented examples. Exploration.",
+        "The oracle encodes documented Snowflake semantics restricted to unambiguous parts; forms fakesnow does not claim may be rejected.",
+        "DESIGN.md §4 C10",
+        "exploration",
+    ),
 }
 
 NOT_YET = {}
